@@ -246,3 +246,22 @@ Definition run (w : world) (sched : list (cid * label)) (cfg : config) : config 
 Definition init (m0 : refs) (progs : cid -> list op) : config :=
   {| g_refs := m0; g_log := [];
      g_clients := fun c => {| c_todo := progs c; c_pc := PIdle; c_first := 0; c_view := m0; c_done := [] |} |}.
+
+(* ---- the NBS flavour of the root compare-and-swap ----
+   NomsBlockStore.updateManifest decides whether its manifest update won by comparing the
+   lock hash of the contents it tried to write with the lock of the manifest it got back
+   (store.go:1711 "if newContents.lock != upstream.lock"); the lock is a hash of (root,
+   table specs) only (manifest.go generateLockHash).  A writer that lost the race to a
+   writer publishing byte-identical contents (same new root, same table files) therefore
+   takes the other's update for its own.  [step_lockhash] adds exactly that case. *)
+Definition step_lockhash (w : world) (cfg : config) (e : cid * label) : config :=
+  let '(c, lbl) := e in
+  let cl := g_clients cfg c in
+  match lbl, c_todo cl, c_pc cl with
+  | SCas, o :: rest, PCas seen new =>
+    if negb (refs_eqb seen (g_refs cfg)) && refs_eqb new (g_refs cfg)
+    then {| g_refs := new; g_log := g_log cfg ++ [(c, o)];
+            g_clients := upd (g_clients cfg) c (finish cl o rest new ROk) |}
+    else step w cfg e
+  | _, _, _ => step w cfg e
+  end.
